@@ -16,25 +16,79 @@ import Bkl.Get
 set_option linter.unusedVariables false
 namespace Bkl
 
-/-- replace the value at a map path of `root` (no-op if the path does not exist) -/
-def setPath (root : Val) (path : List String) (v : Val) : Val :=
+/-- one step of a location inside the document root: a map key or a list index -/
+inductive PathElem where
+  | key (k : String)
+  | idx (i : Nat)
+  deriving Repr, DecidableEq, Inhabited
+
+abbrev Loc := Option (List PathElem)
+
+/-- replace the value at a path of `root` (no-op if the path does not exist) -/
+def setPath (root : Val) (path : List PathElem) (v : Val) : Val :=
   match path with
   | [] => v
-  | p :: ps =>
+  | .key p :: ps =>
     match root with
     | .map kvs =>
       match fget kvs p with
       | some child => .map (fset kvs p (setPath child ps v))
       | none => root
     | _ => root
+  | .idx i :: ps =>
+    match root with
+    | .list xs =>
+      match xs[i]? with
+      | some child => .list (xs.set i (setPath child ps v))
+      | none => root
+    | _ => root
 
-def setLoc (root : Val) (loc : Option (List String)) (v : Val) : Val :=
+def setLoc (root : Val) (loc : Loc) (v : Val) : Val :=
   match loc with
   | some p => setPath root p v
   | none => root
 
-def childLoc (loc : Option (List String)) (k : String) : Option (List String) :=
-  loc.map (· ++ [k])
+def childLoc (loc : Loc) (k : String) : Loc :=
+  loc.map (· ++ [.key k])
+
+def entryLoc (loc : Loc) (tag : Option Nat) : Loc :=
+  match loc, tag with
+  | some p, some i => some (p ++ [.idx i])
+  | _, _ => none
+
+/-- list entries tagged with their index in the document root's list (`none` = a copy that
+    arrived through a reference) -/
+abbrev Tagged := List (Val × Option Nat)
+
+def hasMatchEntry (s : List Val) : Bool :=
+  s.any fun v => match v with
+    | .map kvs => fhas kvs "$match" && !fhas kvs "$delete"
+    | _ => false
+
+/-- merge.go:mergeListList on a tagged destination, for sources without `$match` entries
+    (a `$match` entry would merge into an original entry *in place*; such documents are
+    reported as outside the model). Agrees with `mergeListList` on the untagged values. -/
+def mergeListTagged (d : Tagged) (s : List Val) : R Tagged :=
+  let fresh (l : List Val) : Tagged := l.map (·, none)
+  let (rep, s1) := popListString s "$replace"
+  if rep then pure (fresh s1)
+  else do
+    let (rep2, s2) ← popListMapBool s "$replace" true
+    if rep2 then pure (fresh s2)
+    else
+      let d1 := d.filter (fun x => !(x.1 == .str "$required"))
+      s.foldlM (init := d1) fun acc v =>
+        match v with
+        | .map kvs =>
+          match fget kvs "$delete" with
+          | some del =>
+            if (fdel kvs "$delete").length > 0 then throw Err.extraKeys
+            else if acc.any (fun x => matchV x.1 del) then pure (acc.filter (fun x => !matchV x.1 del))
+            else throw Err.uselessOverride
+          | none =>
+            if fhas kvs "$match" then throw Err.unmodelled
+            else pure (acc ++ [(v, none)])
+        | _ => pure (acc ++ [(v, none)])
 
 /-- strings.HasPrefix / TrimPrefix on the model's strings -/
 def stripPrefix (s pre : String) : Option String :=
@@ -44,7 +98,7 @@ def depthLimit : Nat := 1000
 
 /-- process1.go:process1 and everything it calls.  Returns the evaluated value and the
     (possibly expanded-in-place) document root. -/
-def process1 (fuel : Nat) (docs : List Val) (root : Val) (loc : Option (List String))
+def process1 (fuel : Nat) (docs : List Val) (root : Val) (loc : Loc)
     (obj : Val) : R (Val × Val) :=
   match fuel with
   | 0 => throw Err.circularRef
@@ -90,25 +144,26 @@ def process1 (fuel : Nat) (docs : List Val) (root : Val) (loc : Option (List Str
       let merges := xs.filterMap fun v => match v with
         | .map [(k, ref)] => if k == "$merge" then some ref else none
         | _ => none
-      let obj0 := xs.filter fun v => match v with
+      let obj0 : Tagged := (xs.zipIdx.filter fun (v, _) => match v with
         | .map [(k, _)] => !(k == "$merge")
-        | _ => true
+        | _ => true).map fun (v, i) => (v, some i)
       let obj1 ← merges.foldlM (init := obj0) fun acc ref => do
         let inp ← get root docs ref
         match inp with
-        | .list s =>
-          match ← mergeListList acc s with
-          | .list r => pure r
-          | _ => throw Err.unmodelled
+        | .list s => mergeListTagged acc s
         | .null => pure acc
         | _ => throw Err.invalidType
-      let (rep, obj2) ← popListMapValue obj1 "$replace"
+      let (rep, _) ← popListMapValue (obj1.map (·.1)) "$replace"
       if !rep.isNull then do
         let next ← get root docs rep
         process1 fuel docs root none next
       else do
-        let (ret, root') ← obj2.foldlM (init := (([] : List Val), root)) fun (acc, rt) v => do
-          let (v2, rt1) ← process1 fuel docs rt none v
+        -- entries that are single-key {$replace: null} maps are dropped by popListMapValue
+        let obj2 := obj1.filter fun (v, _) => match v with
+          | .map [(k, _)] => !(k == "$replace")
+          | _ => true
+        let (ret, root') ← obj2.foldlM (init := (([] : List Val), root)) fun (acc, rt) (v, tag) => do
+          let (v2, rt1) ← process1 fuel docs rt (entryLoc loc tag) v
           if v2.isNull then pure (acc, rt1) else pure (acc ++ [v2], rt1)
         pure (.list ret, root')
     | .str s =>
